@@ -48,3 +48,18 @@ Definition truth_groups_ok (o : out) (t : list (N * list (string * res_kind * N)
   && list_eqb (pair_eqb N.eqb (list_eqb (pair_eqb String.eqb res_kind_eqb)))
     (map (fun g => (og_no g, og_layout_fields g)) (C03Spec.groups_of o))
     (map (fun x => (fst x, map fst (snd x))) t).
+
+(** structs ground truth: (name, derives, repr(C), size assert, offset asserts) per emitted struct *)
+Fixpoint list_rel {A B} (f : A -> B -> bool) (l : list A) (l' : list B) : bool :=
+  match l, l' with
+  | [], [] => true
+  | x :: t, y :: t' => f x y && list_rel f t t'
+  | _, _ => false
+  end.
+Definition truth_structs_ok (o : out)
+    (t : list (string * list string * bool * option N * list (string * N))) : bool :=
+  list_rel (fun s x => let '(n, d, r, sz, offs) := x in
+                       String.eqb (s_name s) n && list_eqb String.eqb (s_derives s) d
+                       && Bool.eqb (s_repr_c s) r && option_eqb N.eqb (s_assert_size s) sz
+                       && list_eqb str_n_eqb (s_assert_offsets s) offs)
+           (o_structs o) t.
